@@ -246,8 +246,14 @@ class ToLinen(linen.Module):
   @linen.compact
   def __call__(self, *args, **kwargs):
     # init codepath (the first call only: later calls reuse the module
-    # created by the first one)
-    if self.is_initializing() and not self.has_variable('nnx', 'graphdef'):
+    # created by the first one). A graphdef without any state is what a lifted
+    # transform that broadcasts the 'nnx' collection leaves behind: still init.
+    has_state = any(
+        v for col, v in self.variables.items() if col != 'nnx'
+    )
+    if self.is_initializing() and not (
+        self.has_variable('nnx', 'graphdef') and has_state
+    ):
       module_kwargs = dict(self.kwargs)
       if not self.skip_rng:
         module_kwargs |= dict(rngs=nnx.Rngs(**linen_rngs_dict(self)))
